@@ -346,6 +346,14 @@ pub const SWEEP_PATTERNS: usize = 6;
 pub const SWEEP_PATTERN_NAMES: [&str; 6] = ["front-to-exhaustion+2", "back-to-exhaustion+2", "alternate", "front-half-then-back", "back-half-fork-then-both", "reversed-mixed"];
 
 fn exec<F: Fam>(case: &ICase<F::Setup>, ctx: &mut Ctx) -> Res {
+    // every violation detail also names the setup (text / slice shape / range bounds)
+    exec_inner::<F>(case, ctx).map_err(|mut v| {
+        v.detail = format!("{}; setup {:?}", v.detail, case.setup);
+        v
+    })
+}
+
+fn exec_inner<F: Fam>(case: &ICase<F::Setup>, ctx: &mut Ctx) -> Res {
     let d = F::datum(&case.setup);
     let d: &F::Datum = &d;
     let k0 = match guard(|| F::k_new(&case.setup, d)) {
